@@ -11,6 +11,25 @@
 
 include!("spec.rs");
 
+/// Stand-in for `str::is_char_boundary` -- the test that `&data[a..]` / `&data[a..b]` make before they panic with "byte
+/// index is not a char boundary" / "out of range".  Same answer as the real one (its definition, byte for byte), and
+/// the panic that a `false` leads to is raised HERE already: a failed check located in
+/// `core::str::traits::<impl SliceIndex<str> for RangeFrom<usize>>::index` has a blank in its id and the lane's output
+/// parser does not see it (the run would end UNDECIDED instead of VIOLATION).  The tokenizer never calls
+/// `is_char_boundary`/`get` to ASK: every use is a slice expression, for which `false` is the panic.
+fn checked_char_boundary(s: &str, index: usize) -> bool {
+    let b = s.as_bytes();
+    let r = index == 0 || index == b.len() || (index < b.len() && (b[index] as i8) >= -0x40);
+    no_slice_panic(r);
+    r
+}
+/// (a function of its own so that the check is located in a function whose path has no blank: the stub's body runs
+/// under the name `core::str::<impl str>::is_char_boundary`)
+#[inline(never)]
+fn no_slice_panic(on_boundary: bool) {
+    assert!(on_boundary, "A1/no panic: a str is sliced at a byte index that is out of range or inside a code point");
+}
+
 /// quick tier: L = 4; thorough tier: L = 6 (kani.toml states the bound per harness)
 fn one_call<const L: usize>(m: Method) {
     let mut bytes = [b'a'; L];
@@ -44,6 +63,7 @@ fn one_call<const L: usize>(m: Method) {
 // `Parser::of`: pos = end = 0, wf for every string
 #[kani::proof]
 #[kani::unwind(9)]
+#[kani::stub(str::is_char_boundary, checked_char_boundary)]
 fn asql_tok_of() {
     const L: usize = 6;
     let mut bytes = [b'a'; L];
@@ -66,6 +86,7 @@ macro_rules! asql_tok_harness {
     ($name:ident, $l:expr, $u:expr, $m:expr) => {
         #[kani::proof]
         #[kani::unwind($u)]
+        #[kani::stub(str::is_char_boundary, checked_char_boundary)]
         fn $name() {
             one_call::<$l>($m)
         }
@@ -87,3 +108,80 @@ asql_tok_harness!(asql_tok_peek_one_l6, 6, 8, Method::PeekOne);
 asql_tok_harness!(asql_tok_eat_one_l6, 6, 8, Method::EatOne);
 asql_tok_harness!(asql_tok_peek_quoted_l6, 6, 8, Method::PeekQuoted);
 asql_tok_harness!(asql_tok_eat_quoted_l6, 6, 8, Method::EatQuoted);
+
+// ---------------------------------------------------------------------------------------------------
+// Unicode pieces: the string is n <= P whole pieces of UPIECES (spec.rs) -- ASCII space, tab, a letter, a delimiter,
+// U+00A0 (2 bytes), U+2003 (3 bytes) -- every choice; the cursors rest on piece boundaries (every wf state the
+// tokenizer can be in: it only ever stores char boundaries, which clause [7] re-establishes), one call.
+// ---------------------------------------------------------------------------------------------------
+/// (ONE const parameter: the lane's output parser takes a check id up to the first blank, and `one_call_u::<3, 9>` has one)
+fn one_call_u<const P: usize>(m: Method) {
+    let mut bytes = [b'a'; 12]; // 3 * P bytes are used at most, P <= 4
+    let mut off = [0usize; 8];
+    let n: usize = kani::any();
+    kani::assume(n <= P);
+    let mut len = 0;
+    let mut i = 0;
+    while i < P {
+        let k: u8 = kani::any();
+        kani::assume((k as usize) < UPIECES.len());
+        if i < n {
+            let piece = UPIECES[k as usize].as_bytes();
+            bytes[len] = piece[0];
+            if piece.len() > 1 {
+                bytes[len + 1] = piece[1];
+            }
+            if piece.len() > 2 {
+                bytes[len + 2] = piece[2];
+            }
+            len += piece.len();
+        }
+        off[i + 1] = len;
+        i += 1;
+    }
+    let ip: usize = kani::any();
+    let ie: usize = kani::any();
+    kani::assume(ip <= ie && ie <= n);
+    let (pos, end) = (off[ip], off[ie]);
+    kani::cover!(true, "reach_one_call_u");
+    // whole UTF-8 pieces back to back: valid UTF-8 (the replay test uses the checked `from_utf8`)
+    let data: &str = unsafe { std::str::from_utf8_unchecked(&bytes[..len]) };
+    let mut p = super::Parser { data, start_cursor: pos, end_cursor: end };
+    let v = call_and_check_u(m, &mut p);
+    assert!(!v[0], "A1/wf': pos' <= end' <= len");
+    assert!(!v[1], "A1/pos' >= pos");
+    assert!(!v[2], "A1/cursor-token relation");
+    assert!(!v[3], "A1/emptiness clause");
+    assert!(!v[4], "A1/end-of-input or whitespace clause");
+    assert!(!v[5], "A1/eat: token is the tail of the consumed input");
+    assert!(!v[6], "A1/one: exactly one character");
+    assert!(!v[7], "A1/cursors on char boundaries");
+}
+
+macro_rules! asql_tok_u_harness {
+    ($name:ident, $p:expr, $u:expr, $m:expr) => {
+        #[kani::proof]
+        #[kani::unwind($u)]
+        #[kani::stub(str::is_char_boundary, checked_char_boundary)]
+        fn $name() {
+            one_call_u::<$p>($m)
+        }
+    };
+}
+// quick tier: <= 3 pieces (<= 9 bytes) for take / peek_one / eat_one, <= 2 pieces (<= 6 bytes) for the word and
+// quoted-string methods (unwind = P + 2: the longest loop, `take_whitespace` over P blanks, makes P + 1 iterations)
+asql_tok_u_harness!(asql_tok_u_take, 3, 5, Method::Take);
+asql_tok_u_harness!(asql_tok_u_peek_one, 3, 5, Method::PeekOne);
+asql_tok_u_harness!(asql_tok_u_eat_one, 3, 5, Method::EatOne);
+asql_tok_u_harness!(asql_tok_u_peek_word, 2, 4, Method::PeekWord);
+asql_tok_u_harness!(asql_tok_u_eat_word, 2, 4, Method::EatWord);
+asql_tok_u_harness!(asql_tok_u_peek_quoted, 2, 4, Method::PeekQuoted);
+asql_tok_u_harness!(asql_tok_u_eat_quoted, 2, 4, Method::EatQuoted);
+// thorough tier: <= 4 pieces (<= 12 bytes)
+asql_tok_u_harness!(asql_tok_u_take_p4, 4, 6, Method::Take);
+asql_tok_u_harness!(asql_tok_u_peek_one_p4, 4, 6, Method::PeekOne);
+asql_tok_u_harness!(asql_tok_u_eat_one_p4, 4, 6, Method::EatOne);
+asql_tok_u_harness!(asql_tok_u_peek_word_p4, 4, 6, Method::PeekWord);
+asql_tok_u_harness!(asql_tok_u_eat_word_p4, 4, 6, Method::EatWord);
+asql_tok_u_harness!(asql_tok_u_peek_quoted_p4, 4, 6, Method::PeekQuoted);
+asql_tok_u_harness!(asql_tok_u_eat_quoted_p4, 4, 6, Method::EatQuoted);
